@@ -87,34 +87,43 @@ def fault_catalogue(kind, method):
 
 
 def single_fault_specs(tag, cert, positions, tier, seed, attempts=1, pre_modes=("none", "pair"), reuse_modes=(False, True),
-                       quick_stride=7, extra=None):
+                       quick_stride=7, extra=None, dense_kinds=(), dense_cells=None):
     """Every request position x every fault of the catalogue x pre-existing pair x kp_reuse.
-    quick: a rotating 1/quick_stride sample that still covers every (position, fault) pair at least once
-    across the pre/reuse grid; thorough: everything."""
+    quick: a rotating 1/quick_stride sample; request kinds named in dense_kinds are not sampled for the ACME error types
+    (every type x every pre/reuse cell, answered once: the cases where special handling of one error type at one step
+    would hide). thorough: everything, ACME errors both answered once and repeated."""
     import flowcheck
     specs = []
     n = 0
     for pre in pre_modes:
         for reuse in reuse_modes:
+            dense_here = dense_cells is None or (pre, reuse) in dense_cells
             c = dict(cert)
             c["kp_reuse"] = reuse
             for (kind, nth, m) in positions:
                 for f in fault_catalogue(kind, m):
                     n += 1
-                    if tier != "thorough" and (n + seed) % quick_stride != 0:
-                        continue
-                    rep = 1 if not f.startswith("acme:") else (1 + (n % 3))
-                    sp = dict(tag="%s/s%04d" % (tag, len(specs)), certs=[c], attempts=attempts,
-                              endpoints={"A": {"script": [{"kind": kind, "nth": nth, "fault": f, "repeat": rep}]}},
-                              meta={"family": "single fault", "kind": kind, "nth": nth, "fault": f, "repeat": rep, "pre": pre, "kp_reuse": reuse})
-                    steps = []
-                    if pre != "none":
-                        steps.append(("call", flowcheck.install_pair(c, pre)))
-                    steps.append(("run", {}))
-                    sp["steps"] = steps
-                    if extra:
-                        sp.update(extra)
-                    specs.append(flowcheck.prepare(sp))
+                    acme = f.startswith("acme:")
+                    reps = []
+                    if tier == "thorough":
+                        reps = [1, 2 + (n % 2)] if acme else [1]
+                    else:
+                        if (n + seed) % quick_stride == 0:
+                            reps.append(1 if not acme else (1 + (n % 3)))
+                        if acme and dense_here and kind in dense_kinds and 1 not in reps:
+                            reps.append(1)
+                    for rep in reps:
+                        sp = dict(tag="%s/s%04d" % (tag, len(specs)), certs=[c], attempts=attempts,
+                                  endpoints={"A": {"script": [{"kind": kind, "nth": nth, "fault": f, "repeat": rep}]}},
+                                  meta={"family": "single fault", "kind": kind, "nth": nth, "fault": f, "repeat": rep, "pre": pre, "kp_reuse": reuse})
+                        steps = []
+                        if pre != "none":
+                            steps.append(("call", flowcheck.install_pair(c, pre)))
+                        steps.append(("run", {}))
+                        sp["steps"] = steps
+                        if extra:
+                            sp.update(extra)
+                        specs.append(flowcheck.prepare(sp))
     return specs
 
 
